@@ -325,6 +325,63 @@ def _shard_programs(args):
     return {"n": n, "vb": vb}
 
 
+COUNTED_MN = ("MVL", "MVLD", "EXL", "ADCL", "SBCL", "DADL", "DSBL", "DSLL", "DSRL")
+
+
+def _shard_same(args):
+    """Two instructions that share prefix and opcode but differ in their selector byte, back to back (both orders): decoder state
+    shared between instances of one opcode must not leak from the instruction that follows into the one being executed.
+    Pairs whose members already disagree when run alone in this state belong to the single-instruction part and are skipped."""
+    pairs, tail, st = args
+    h = rb.harness()
+    vb = VB()
+    n = skipped = 0
+
+    def both(seq, steps=None):
+        steps = len(seq) if steps is None else steps
+        code = _prog_bytes(seq) + bytes([0x00] * 4)
+        regs, mem, fill = build_case(code, st, CODE)
+        o = h.call(rs_req(regs, mem, fill, steps=steps, trace=True, ignore_power=True))
+        py = pycpu.run(regs, mem, fill, steps=steps, trace=True, ignore_power=True)
+        if o.get("panic") or py.get("err") or o.get("err"):
+            return ("error", 0, 0, 0)
+        for t in o.get("trace", []):
+            t["F"] &= 0x03
+        for t in py.get("trace", []):
+            t["F"] &= 0x03
+        return program_divergence(py, o, mem, fill, steps)
+
+    alone: Dict[bytes, Any] = {}
+    for pre, op in pairs:
+        shp = []
+        for d in shapes.shapes_for(pre, op, tail):
+            ins, _ = drv.py_decode(d, CODE)
+            shp.append(d[: ins.length()])
+        if len(shp) < 2:
+            continue
+        picks = sorted({1, len(shp) // 2, len(shp) - 1})
+        for j in picks:
+            for seq in ([shp[0], shp[j]], [shp[j], shp[0]]):
+                for x in seq:
+                    if x not in alone:
+                        alone[x] = both([x])
+                if any(alone[x] is not None for x in seq):
+                    skipped += 1
+                    continue
+                n += 1
+                # a counted instruction leaves I = 0, and the cores are known to disagree on counted instructions entered with I = 0:
+                # there only the first instruction is executed (the second one is still what follows it in memory)
+                bad = both(seq, 1 if _mnemonic(seq[0]) in COUNTED_MN else None)
+                if bad:
+                    k, name, a, b = bad
+                    fld = "reg" if name in pycpu.ARCH_REGS else name
+                    vb.add(f"C06/program/same-opcode/{fld}/{_mnemonic(seq[0])}/op={op:02X}/{'pre' if pre is not None else 'none'}",
+                           f"program {[x.hex() for x in seq]} (each instruction agrees when run alone) diverges at step {k}: {name} python {a:#x} rust {b:#x}"
+                           if name != "error" else f"program {[x.hex() for x in seq]}: one core reports an error",
+                           {"program": [x.hex() for x in seq], "state": st, "steps": len(seq), "same_opcode": True})
+    return {"n": n, "skipped": skipped, "vb": vb}
+
+
 LOOPS = [
     # 1000 MV A,5 / 1002 DEC A / 1004 JRNZ -4 / 1006 JR -2 (self)
     ["0805", "7c00", "1b04", "1302"],
@@ -378,6 +435,9 @@ def run(ctx) -> None:
     st_p = {"bpx": BPX[0], "bg": REGS_BG[0], "F": 1, "fill": 0x103}
     st_p2 = {"bpx": BPX[1], "bg": REGS_BG[1], "F": 2, "fill": 0x104}
     resP = pmap(_shard_programs, [(s, st, None) for st in (st_p, st_p2) for s in chunks(seqs, nproc())])
+    so_pairs = [(p, op) for p in (None, 0x32) for op in range(256) if op not in CF_OPS and op not in drv.PRE_BYTES and op not in (0xDE, 0xDF, 0xEF, 0xFF)]
+    resS = pmap(_shard_same, [(c, tails[0], st_p) for c in chunks(so_pairs, nproc() * 2)])
+    ctx.coverage["same_opcode_pairs"] = {"compared": sum(r["n"] for r in resS), "skipped_member_diverges_alone": sum(r["skipped"] for r in resS)}
     loops = [[bytes.fromhex(x) for x in lp] for lp in LOOPS]
     resL = pmap(_shard_programs, [([lp], st_p, 64 if ctx.thorough else 24) for lp in loops])
     from .. import flow
@@ -385,7 +445,7 @@ def run(ctx) -> None:
     resF = pmap(_shard_flow, [(c, st_p) for c in chunks(fl, nproc() * 2)])
     ctx.coverage["control_flow_scripts"] = {"max_length": 5 if ctx.thorough else 4, "alphabet": flow.OPS, "scripts": len(fl),
                                             "laid_out_and_compared": sum(r["n"] for r in resF)}
-    for r in res + resP + resL + resF:
+    for r in res + resP + resL + resF + resS:
         ctx.merge_bucket(r["vb"])
     n = sum(r["n"] for r in res)
     ctx.level = "exploration"
